@@ -28,7 +28,13 @@ T_CStep == /\ Ev.e = "MtStep" /\ Ev.who = "c" /\ s.cpc = Ev.from
 T_TStep == /\ Ev.e = "MtStep" /\ Ev.who = "t" /\ s.tpc = Ev.from
            /\ (SetActive \/ FuncStart \/ FuncEnd \/ ClearActive \/ ThreadExit)
            /\ s'.tpc = Ev.to /\ Bump("t")
-T_Observe == Ev.e = "Observe" /\ Observe(Ev.b) /\ Bump("o")
+\* declarative (C20): TRUE is demanded while the function runs, FALSE once the thread was joined; in every other phase
+\* (before the function has started, between its return and join) the statement promises nothing, so the logged answer
+\* is taken as it is and judged by ObserveOK
+T_Observe == /\ Ev.e = "Observe" /\ EnObserve(s) /\ Ev.b \in BOOLEAN
+             /\ (s.tpc = "in_func" => Ev.b) /\ (s.cpc = "joined" => ~Ev.b)
+             /\ s' = [DoObserve(s) EXCEPT !.lastObs.b = Ev.b]
+             /\ Bump("o")
 T_ObserveAny == Ev.e = "ObserveAny" /\ EnObserve(s) /\ Ev.b \in BOOLEAN /\ UNCHANGED s /\ Bump("o")
 T_Join == Ev.e = "Join" /\ Join /\ Bump("o")
 T_Destroy == Ev.e = "Destroy" /\ Destroy /\ Bump("o")
